@@ -54,6 +54,11 @@ TABLE = [
 
 
 def run(ctx):
+    _run(ctx)
+    tabs_before_truncate(ctx)
+
+
+def _run(ctx):
     ctx.explanation = (
         "Decides structurally: column budgets are measured with the display-width function only; no unreviewed panic source in the truncation code of radicle-term reachable from "
         "Cell::{truncate,width,pad} and Line::truncate; str range bounds are char-boundary-class offsets (BOUNDARY). "
@@ -138,3 +143,35 @@ def run(ctx):
         ctx.check("measure:str::truncate", ncmp >= 2 and not problems,
                   "every quantity compared with the requested width is a sum of display widths (Cell::width) — found %s"
                   % (sorted(set(problems)) or "only display widths"), rules.where(tr), fn=tr)
+
+
+def tabs_before_truncate(ctx):
+    """A tab has no computable display width (it is counted as one column), so `TextArea::lines` — the caller of the
+    truncation — replaces tabs with the soft tab *before* it measures and truncates a line.  Replaced afterwards, every tab
+    adds a column the width test never saw."""
+    db = ctx.db
+    fam = db.find(r"^radicle_term::textarea::TextArea::lines")
+    if not fam:
+        ctx.ob("flow:textarea:tabs-before-truncate", "inconclusive", "TextArea::lines not found", "")
+        return
+    root = [f for f in fam if "closure" not in f["key"]]
+    trunc = [(f, bb, t) for f in fam for bb, t, c in db.calls(f) if re.search(r"Cell>?::truncate$", c.get("n") or "")]
+    repl = [(f, bb, t) for f in fam for bb, t, c in db.calls(f) if (c.get("n") or "").endswith("str::replace") and nshow(cfg.peel(expr_operand(f, t[2][1]))) == "9"]
+    if not trunc:
+        ctx.ob("flow:textarea:tabs-before-truncate", "inconclusive", "no truncation in TextArea::lines any more", rules.where(root[0]) if root else "", fn=root[0] if root else None)
+        return
+    bad = []
+    for f, bb, t in trunc:
+        recv = nshow(expr_operand(f, t[2][0]))
+        # the truncated string comes out of the tab-replacing map (closure) or of a replace() call
+        from_map = "Map<" in recv or "str::replace(" in recv
+        replaced_in_closure = any("closure" in rf["key"] for rf, _, _ in repl)
+        if not (("str::replace(" in recv) or (from_map and replaced_in_closure)):
+            bad.append("the line handed to truncate() has not had its tabs replaced")
+    for f, bb, t in repl:
+        arg = nshow(expr_operand(f, t[2][0]))
+        if "truncate(" in arg:
+            bad.append("tabs are replaced in the result of truncate()")
+    ctx.check("flow:textarea:tabs-before-truncate", not bad and bool(repl),
+              "tabs are replaced by the soft tab before a line is measured and truncated, never after%s" % ((": " + "; ".join(sorted(set(bad)))) if bad else ""),
+              rules.where(trunc[0][0], trunc[0][1]), fn=trunc[0][0])
